@@ -557,6 +557,9 @@ def main(ctx, replay):
     mism += in_mism
 
     proof_broken = C.proof_status(info, "C17") + model_err
+    # a reload must not be reported as applied while the push dispatcher keeps values it was built from at start-up (lib/restartclass.py)
+    from lib import restartclass
+    dist.update(restartclass.run(ctx, info))
     cov.update({
         "evaluations": evaluations,
         "distinct_nontrivial": len(nontrivial),
